@@ -183,7 +183,7 @@ CLAIMED = {
         technique='Lean 4 proof (signomial algebra with symbolic coefficients) + model/implementation correspondence check',
         design_ref='DESIGN.md 4/C04'),
     'C19': dict(
-        text='PARTIAL (the exclusion of constant-negative indices from covers is observed, not proved). Theorems about the Lean model of the SAGE row generators '
+        text='PARTIAL (what stays outside: the optimisation-based presolve answers and kernel_basis() are inputs; for conditional cones the heuristic reduction is the known finding F10; equality of solver VALUES is audited). The exclusion of definitely-negative indices from every cover and the restriction of AGE cones to possibly-negative indices is PROVED lossless on R^n (Props/C19Sign: sign_presolve_lossless / _sound - Murray-Chandrasekaran-Wierman Thm 2 / Cor 5 - from a function-level reduction by induction on the number of AGE summands and the exactness of the certificate, C06.ordAge_exact). Theorems about the Lean model of the SAGE row generators '
              'with the five settings as inputs: compact and epigraph dual rows have the same feasible set (projection off the epigraph '
              'variables), forced equality of the AGE sum is equivalent to the inequality form exactly because equality is only demanded '
              'at reached indices, a trivial kernel forces nu = 0 (exact elimination), the sign-pattern cover simplification is lossless for nonnegative '
@@ -193,7 +193,7 @@ CLAIMED = {
              'compared across the lattice.',
         note='F16 and F7 repaired in /repo (fadbad9, e1a32de); F10 (default heuristic reduction turns a feasible conditional certificate '
              'problem infeasible) is a recorded known finding; kernel_basis() itself (SVD/QR) is an input of the model.',
-        technique='Lean 4 proof (option equivalences on the row model, exp-cone monotonicity, exact rank) + model/implementation correspondence check across the option lattice',
+        technique='Lean 4 proof (option equivalences on the row model, exp-cone monotonicity, exact rank; sign-pattern reduction of SAGE decompositions via AGE completeness) + model/implementation correspondence check across the option lattice',
         design_ref='DESIGN.md 4/C19'),
     'C05': dict(
         text='PARTIAL (strong duality observed only; extension to zero coordinates proved for X = R^n). Theorems about a Lean model of '
